@@ -12,6 +12,108 @@ import z3
 from vcommon import Outcome, new_replay_dir, tier
 
 
+def find_references_lemmas(o, L, S, E, ML, f_fr, structural, on_sat):
+    """One iteration of find_references: what is recorded, when, and over which modules."""
+    # find_references: one variable of one module
+    ex = mirlib.executor([ML])
+    n_push = n_skip = 0
+    for p in ex.run(f_fr, arg_names=["workspace", "folder", "definition"]):
+        if p.kind != "backedge":
+            continue
+        cd = [e for e in p.calls() if e[1] == "Core::definition"]
+        if not cd:
+            continue
+        nx = [e for e in p.calls() if e[1].endswith("Iterator::next")]
+        var = ms.proj(ms.proj(nx[-1][3], ("v", "Some"), E), ("f", 0), E)
+        slot = ex.raw_deref(p.state, ms.proj(ms.proj(cd[0][3], ("v", "Some"), E), ("f", 0), E))
+        same = S.v(ex.raw_deref(p.state, ("sym", "definition"))) == S.v(slot)
+        pushes = [e for e in p.calls() if e[1] == "Vec::push"]
+        cond = S.pc(p.pc)
+        if pushes:
+            n_push += 1
+            nl = p.calls("node_location")
+            vi = [e for e in p.calls() if e[1] == "Variable::identifier"]
+            okk = len(nl) == 1 and len(vi) == 1 and vi[0][2][0] == ("addr", var) and any(t == vi[0][3] for t in ms.subterms(nl[0][2][1])) and \
+                any(t == ms.proj(ms.proj(nl[0][3], ("v", "Ok"), E), ("f", 0), E) for t in ms.subterms(pushes[0][2][1]))
+            structural("find_references: what is recorded is the location of that variable's identifier", okk)
+            L.expect_unsat("find_references: a variable is recorded only if its definition slot equals the requested definition", cond + [z3.Not(same)], on_sat)
+        else:
+            n_skip += 1
+            L.expect_unsat("find_references: a variable is skipped only if its definition slot differs", cond + [same], on_sat)
+    if n_push < 1 or n_skip < 1:
+        o.inconc("find_references loop body: expected a recording and a skipping path (%d/%d)" % (n_push, n_skip))
+    mirlib.check_translator(o, ex, "find_references")
+    # every module of the folder is visited
+    ex = mirlib.executor([ML])
+    vis = False
+    for p in ex.run(f_fr, arg_names=["workspace", "folder", "definition"]):
+        if any(e[1] == "ModuleSet::modules" for e in p.calls()):
+            vis = True
+    structural("find_references: iterates over all modules of the folder", vis)
+
+
+
+def identity_lemmas(o, L, S, E, on_sat):
+    """Identity of definitions: the comparison find_references (and through it rename) relies on looks at every
+    component of a definition (module locator AND node index: indices are only unique inside one module's arena).
+    Returns False if the run became inconclusive."""
+    # identity of definitions: the comparison find_references relies on looks at every component of a
+    # definition (module locator AND node index: node indices are only unique inside one module's arena)
+    try:
+        MC = mirlib.module("oal-compiler")
+        f_exeq = [f for f in MC.find(r"^definition::<impl[^>]*>::eq$") if [t.strip() for _, t in f.args] == ["&External", "&External"]]
+        f_dfeq = [f for f in MC.find(r"^definition::<impl[^>]*>::eq$") if [t.strip() for _, t in f.args] == ["&Definition", "&Definition"]]
+        f_exnew = [f for f in MC.find(r"^definition::<impl[^>]*>::new$") if f.ret.strip() == "External"]
+        if len(f_exeq) != 1 or len(f_dfeq) != 1 or len(f_exnew) != 1:
+            raise KeyError("External::eq / Definition::eq / External::new: %d/%d/%d" % (len(f_exeq), len(f_dfeq), len(f_exnew)))
+    except Exception as ex:
+        o.inconc("MIR: %s" % str(ex)[-300:])
+        return False
+    o.functions += [mirlib.func_ref(f, "oal-compiler") for f in (f_exeq[0], f_dfeq[0], f_exnew[0])]
+    import mirparse as mp
+    fields = None
+    for b in f_exnew[0].blocks.values():
+        ps, pt = mp.stmts_of(b)
+        for st in ps:
+            if st[0] == "assign" and st[2][0] == "aggr" and st[2][4] and "External" in str(st[2][2]):
+                fields = list(st[2][4])
+    if not fields:
+        o.inconc("cannot read External's fields from External::new")
+        return False
+    o.extra["definition_components"] = fields
+    A, B = ("deref", ("sym", "a")), ("deref", ("sym", "b"))
+    ex = mirlib.executor([MC])
+    n_true = 0
+    for p in ex.run(f_exeq[0], arg_names=["a", "b"]):
+        if p.kind != "return":
+            continue
+        if p.ret == ms.FALSE:
+            continue
+        n_true += 1
+        for i, fn in enumerate(fields):
+            L.expect_unsat("External::eq: two definitions compare equal only if their '%s' components are equal" % fn,
+                           S.pc(p.pc) + [S.b(p.ret), S.v(ms.proj(A, ("f", i), E)) != S.v(ms.proj(B, ("f", i), E))], on_sat)
+    if n_true == 0:
+        o.inconc("External::eq: no path can answer true")
+    mirlib.check_translator(o, ex, "External::eq")
+    ex = mirlib.executor([MC])
+    n_ext = 0
+    for p in ex.run(f_dfeq[0], arg_names=["a", "b"]):
+        if p.kind != "return" or p.ret == ms.FALSE:
+            continue
+        cond = S.pc(p.pc)
+        L.expect_unsat("Definition::eq: definitions of different kinds (external / built-in) are never equal", cond + [S.b(p.ret), S.disc(S.v(A)) != S.disc(S.v(B))], on_sat)
+        ea, eb = ms.proj(ms.proj(A, ("v", "External"), E), ("f", 0), E), ms.proj(ms.proj(B, ("v", "External"), E), ("f", 0), E)
+        if any(a == "disc(*a) == 0" for a in mirlib.fmt_pc(p.pc).split(" & ")):
+            n_ext += 1
+            L.expect_unsat("Definition::eq: two external definitions are equal only if their External parts are", cond + [S.b(p.ret), S.v(ea) != S.v(eb)], on_sat)
+    if n_ext == 0:
+        o.inconc("Definition::eq: no External/External path")
+    mirlib.check_translator(o, ex, "Definition::eq")
+
+    return True
+
+
 def check():
     o = Outcome("C17")
     E = mirlib.enums()
@@ -26,7 +128,7 @@ def check():
         return o.finish()
     o.functions += [mirlib.func_ref(f, "oal-client") for f in (f_goto, f_fd, f_fr, f_refs)]
     o.assumptions = ["syntax_at, the syntax accessors, Core::definition, External::node and node_location are uninterpreted",
-                     "<Definition as PartialEq>::eq is structural equality of the definition slots"]
+                     "<Definition as PartialEq>::eq in the handlers is the equality whose own MIR is checked by the identity lemmas (every component compared)"]
     o.bounds = {"control": "all paths; loops: one arbitrary iteration from an arbitrary state", "values": "unbounded"}
     o.outside = ["that the definition slot holds the innermost binder (C08)", "syntax_at's offset-to-node search", "node_location's range conversion (C16)"]
     L = mirlib.Lemma(o)
@@ -91,42 +193,7 @@ def check():
         o.inconc("find_definition: expected a declaration path and a variable path, got %s" % sorted(kinds))
     mirlib.check_translator(o, ex, "find_definition")
 
-    # find_references: one variable of one module
-    ex = mirlib.executor([ML])
-    n_push = n_skip = 0
-    for p in ex.run(f_fr, arg_names=["workspace", "folder", "definition"]):
-        if p.kind != "backedge":
-            continue
-        cd = [e for e in p.calls() if e[1] == "Core::definition"]
-        if not cd:
-            continue
-        nx = [e for e in p.calls() if e[1].endswith("Iterator::next")]
-        var = ms.proj(ms.proj(nx[-1][3], ("v", "Some"), E), ("f", 0), E)
-        slot = ex.raw_deref(p.state, ms.proj(ms.proj(cd[0][3], ("v", "Some"), E), ("f", 0), E))
-        same = S.v(ex.raw_deref(p.state, ("sym", "definition"))) == S.v(slot)
-        pushes = [e for e in p.calls() if e[1] == "Vec::push"]
-        cond = S.pc(p.pc)
-        if pushes:
-            n_push += 1
-            nl = p.calls("node_location")
-            vi = [e for e in p.calls() if e[1] == "Variable::identifier"]
-            okk = len(nl) == 1 and len(vi) == 1 and vi[0][2][0] == ("addr", var) and any(t == vi[0][3] for t in ms.subterms(nl[0][2][1])) and \
-                any(t == ms.proj(ms.proj(nl[0][3], ("v", "Ok"), E), ("f", 0), E) for t in ms.subterms(pushes[0][2][1]))
-            structural("find_references: what is recorded is the location of that variable's identifier", okk)
-            L.expect_unsat("find_references: a variable is recorded only if its definition slot equals the requested definition", cond + [z3.Not(same)], on_sat)
-        else:
-            n_skip += 1
-            L.expect_unsat("find_references: a variable is skipped only if its definition slot differs", cond + [same], on_sat)
-    if n_push < 1 or n_skip < 1:
-        o.inconc("find_references loop body: expected a recording and a skipping path (%d/%d)" % (n_push, n_skip))
-    mirlib.check_translator(o, ex, "find_references")
-    # every module of the folder is visited
-    ex = mirlib.executor([ML])
-    vis = False
-    for p in ex.run(f_fr, arg_names=["workspace", "folder", "definition"]):
-        if any(e[1] == "ModuleSet::modules" for e in p.calls()):
-            vis = True
-    structural("find_references: iterates over all modules of the folder", vis)
+    find_references_lemmas(o, L, S, E, ML, f_fr, structural, on_sat)
 
     # references(): definition found at the cursor, then find_references on it
     ex = mirlib.executor([ML], max_paths=4000)
@@ -137,6 +204,9 @@ def check():
         if fd and fr and any(t == ms.proj(ms.proj(fd[0][3], ("v", "Some"), E), ("f", 0), E) for a in fr[0][2] for t in ms.subterms(a)):
             okr = True
     structural("references: looks up the definition under the cursor and collects the references to exactly that definition", okr)
+
+    if not identity_lemmas(o, L, S, E, on_sat):
+        return o.finish()
 
     o.samples = [{"query": q["name"], "verdict": q["verdict"]} for q in o.queries[:12]]
     import lspcorpus
